@@ -223,14 +223,45 @@ def fft(s, ctx):
         if cm.max_abs(got - got0) > 1e-14 * max(cm.max_abs(got0), 1e-300) + 1e-300:
             raise Violation("C09.scratch.transparent", f"result with scratch ({s['scratch']}) differs from the result "
                                                        f"without by {cm.max_abs(got - got0):.3e}")
+    if s["delta"] == 0.0 and s["iso"]:
+        # second leg: the image wavefront (possibly cropped to fewer samples than the grid) taken on with the FFT
+        # propagator - in the pupil plane's sampling the grid is the same - without and with a dirty scratch buffer: both
+        # must be the unitary DFT of what the wavefront reports as its field
+        fld = np.asarray(out.field)
+        dxs = float(np.atleast_1d(np.asarray(s["dx"], dtype=float))[0])
+        ref2, tol2 = reference(fld, grid, grid)
+        legs = {}
+        for kind in ("none", "dirty"):
+            kw2 = {} if kind == "none" else {"scratch": np.full(grid, 2.0 - 3.0j)}
+            with lentil_call("C09.second_leg", f"propagate_fft of the image wavefront {fld.shape} on grid {grid} (scratch {kind})"):
+                legs[kind] = lentil.propagate_fft(out, pixelscale=dxs, oversample=1, **kw2).field
+            if legs[kind].shape != tuple(grid):
+                raise Skip("second_leg_on_another_grid")           # (rounding put the second grid elsewhere)
+            cm.compare_field("C09.second_leg", legs[kind], ref2, tol2, None,
+                             what=f"image wavefront {fld.shape} (cropped from grid {grid}) propagated again, scratch {kind}:")
+        ctx.tag("second_leg", "second_leg:cropped_input" if fld.shape != tuple(grid) else None)
     if s["delta"] == 0.0:
         # commensurate: the reported wavelength is the requested one, so propagate_dft of the same wavefront
         # must give the same field on the same samples
         full = got.shape
         if full[0] % os_ == 0 and full[1] % os_ == 0:
             with lentil_call("C09.dft_diff", "propagate_dft"):
-                d = lentil.propagate_dft(w, pixelscale=cm.as_ps(s["du"]), shape=(full[0] // os_, full[1] // os_),
-                                         oversample=os_).field
+                wd = lentil.propagate_dft(w, pixelscale=cm.as_ps(s["du"]), shape=(full[0] // os_, full[1] // os_),
+                                          oversample=os_)
+                d = wd.field
+            if s["iso"]:
+                # ... and the image wavefront that propagate_dft returned taken on with the FFT propagator as well
+                dxs = float(np.atleast_1d(np.asarray(s["dx"], dtype=float))[0])
+                ref3, tol3 = reference(np.asarray(d), grid, grid)
+                for kind in ("none", "dirty"):
+                    kw3 = {} if kind == "none" else {"scratch": np.full(grid, -1.0 + 2.0j)}
+                    with lentil_call("C09.second_leg", f"propagate_fft of propagate_dft's image wavefront {d.shape} (scratch {kind})"):
+                        b3 = lentil.propagate_fft(wd, pixelscale=dxs, oversample=1, **kw3).field
+                    if b3.shape != tuple(grid):
+                        raise Skip("second_leg_on_another_grid")
+                    cm.compare_field("C09.second_leg", b3, ref3, tol3, None,
+                                     what=f"propagate_dft image wavefront {d.shape} propagated with the FFT, scratch {kind}:")
+                ctx.tag("second_leg_from_dft")
             if d.shape != got.shape or cm.max_abs(d - got) > 4 * tol:
                 raise Violation("C09.dft_diff", f"propagate_fft and propagate_dft differ by {cm.max_abs(d - got):.3e} "
                                                 f"(grid {grid}, pupil {psh})")
